@@ -25,6 +25,9 @@ def valid(inp):
                 passes += 1
                 if ev.get("d", 0) < 1 or ev["d"] > 1000000:
                     return False
+            elif kind == "restart":
+                if ev.get("how", "both") not in ("ps", "pid", "both"):
+                    return False
             elif kind not in ("init", "tick", "query"):
                 return False
         return passes <= 10 and len(inp["events"]) >= 1
@@ -38,8 +41,10 @@ PROP = Prop(
     coq_run=["theories/C13/Run.v"],
     streams=[Stream("avail", "c13avail", n_quick=600, n_thorough=20000, shards_thorough=4, valid=valid,
                     what="a real Peer single-stepped (InitAllTables, periodicUpdate+initTablesIfRestartRequiredError, "
-                         "client data queries through NewResponse) against 1..5 scripted addresses switched ok/refuse/garbage, "
-                         "time shifted; GET sites (status,last_error,idling,addr) and failed after every event vs C13.Model.trace")],
+                         "client data queries through NewResponse) against 1..5 scripted addresses switched ok/refuse/garbage, the core behind them "
+                         "restarting (program_start / nagios_pid change, same or changed objects), time shifted; GET sites "
+                         "(status,last_error,idling,addr), failed, isOnline, the hostsbygroup table and the identity of the cached status / hosts "
+                         "tables after every event (also right after the step that re-synchronised) vs C13.Model.trace")],
     trusted_base=[
         "Coq 8.16.1 kernel, vm_compute (cases evaluation, the non-vacuity Example and the refutation witness); no native_compute",
         "axioms: none (Print Assumptions: closed under the global context, captured per run)",
@@ -49,7 +54,7 @@ PROP = Prop(
         "pinned code (c_fixed=false) or of the repaired code (c_fixed=true) accordingly; the full-strength theorems are proved for c_fixed=true",
         "modelled, not verified: the 500ms ticker and goroutines of updateLoop (single stepped), the wall clock minute test of "
         "periodicUpdate (forced per tick), the connection pool (BackendKeepAlive off), HTTP/TLS backends, LMD/Thruk federation, "
-        "the broken state (setBroken), RestartRequired from a changed program_start, FullUpdateInterval (0)",
+        "the broken state (setBroken), RestartRequired from a changed number of objects of one table alone, FullUpdateInterval (0)",
     ],
     assumptions=[
         "within one event the environment does not change: an operation is decided by its first backend query",
